@@ -1,14 +1,52 @@
 HOOK_COMMITS = []
 NOT_APPLICABLE = {}
 
-NOTE_K = "Trusted: Go toolchain, rapid, Cosmos SDK (bank, distribution, baseapp, collections) as observation instrument, and the harness' own big-integer reference arithmetic. Exploration only: the property held on the generated histories within the stated bounds (<=60 ops quick / <=120 thorough, <=4-5 concurrent auctions, amounts <=1e33, prices 1e-18..1e6)."
+NOTE_K = "Trusted: Go toolchain, rapid, Cosmos SDK (bank, distribution, baseapp, collections) as observation instrument, and the harness' own big-integer reference arithmetic. Exploration only: the property held on the generated cases within the stated bounds (histories <= 60-70 generated ops plus a deterministic drive to completion, <= 4-5 concurrent auctions, 8 fixed accounts, amounts <= 1e33 in the main domain, prices 1e-18..1e6); absence of violations outside the sampled region is not established."
+NOTE_A = NOTE_K + " Application-level parts run signed zero-fee transactions through FinalizeBlock/Commit on fresh in-memory applications with a deterministic genesis."
+
+def T(engine, ref, technique, text, note=NOTE_K):
+    return {"engine": engine, "design_ref": ref, "technique": technique, "level_text": text, "level_note": note}
 
 TEXTS = {
-    "C01": {
-        "engine": "K",
-        "design_ref": "DESIGN.md section 3.C01",
-        "technique": "stateful property-based testing (rapid) with a shadow-ledger invariant checked after every operation",
-        "level_text": "Randomised search: hundreds (quick) to tens of thousands (thorough) of generated multi-auction histories; after every operation every escrow balance in every denomination must EQUAL what the stored records owe plus recorded third-party donations. Not a proof; it samples interleavings, boundary block times and 18-decimal roundings that unit tests do not.",
-        "level_note": NOTE_K,
-    },
+ "C01": T("K", "DESIGN.md 3.C01", "stateful property-based testing (rapid): shadow-ledger invariant after every operation",
+   "Randomised search over generated multi-auction histories (600 quick / 60 000 thorough): after EVERY operation every escrow balance in every denomination must EQUAL what the stored records owe (offered amount, sum of ceil(amount*price)/worth over bids, unreleased instalments) plus recorded unswept third-party donations. Samples interleavings, boundary block times and 18-decimal roundings unit tests do not; not a proof."),
+ "C02": T("K", "DESIGN.md 3.C02", "stateful PBT: per-operation zero-sum / charge oracle + final per-participant accounting from the observed bank transfer list",
+   "Generated histories under every fee setting and tight balances, driven to the final vesting release: per operation conservation, only-the-signer-pays-exactly-fee+reservation, fee lands in the community pool; at finished/cancelled every participant's receipts equal the reference dues. Exploration, not proof."),
+ "C03": T("K+D", "DESIGN.md 3.C03", "PBT with a reference model: big-integer linear-scan clearing vs the module's binary search (direct order books + message-built books)",
+   "10 000 (quick) to 2 000 000+ (thorough) generated order books with ties, dust at the top price and binding caps compared with an independent reference clearing; plus settled histories. The reference is a direct transcription of the property statement."),
+ "C04": T("K+D", "DESIGN.md 3.C04", "PBT with exact-rational bounds on payments (reference model) for batch and fixed-price bids",
+   "Generated prices with non-terminating expansions and dust amounts; per bidder what actually left the account minus the refund must lie within price*quantity <= payment < price*quantity + matched bids (exact sum of ceilings when the cap does not bind), never above the reservation; fixed-price bids are charged the exact formula. Exploration."),
+ "C05": T("K", "DESIGN.md 3.C05", "stateful PBT: receipts vs allowance-at-the-right-moment, request and supply",
+   "Histories biased to several bids per bidder, cap updates between bids and modifications above the cap; every accepted fixed-price bid and every settlement is checked against the allowance read at the right moment, the request and the supply. Exploration."),
+ "C06": T("K", "DESIGN.md 3.C06", "model-based stateful PBT: predictive acceptance rule and exact remainder for fixed-price auctions",
+   "Long generated bid sequences around the remainder and allowance boundaries; accept/reject must agree with the predictive rule and the published remainder must equal offered minus accepted after every operation. Exploration."),
+ "C07": T("K+A", "DESIGN.md 3.C07", "stateful PBT + exhaustive single-fault injection per block (bank send restriction) + application-level FinalizeBlock runs",
+   "Every generated block (incl. blocks after terminal states, empty books, extreme class) must process without error or panic at module and FinalizeBlock level; for every block with m<=16 transfers ALL m single-transfer faults are injected (sampled above) and each must surface as an error. Fault enumeration is exhaustive per explored block, the set of blocks is sampled.", NOTE_A),
+ "C08": T("K", "DESIGN.md 3.C08", "model-based stateful PBT: predictive lifecycle on boundary instants",
+   "Block times exactly on, 1ns around and far beyond every start/end/release instant; each status after each block/message must equal the predicted one (one transition per auction per block). Exploration."),
+ "C09": T("K+D", "DESIGN.md 3.C09", "PBT with reference arithmetic for instalments and a once-only release schedule (histories + direct schedules up to 100 instalments)",
+   "Instalment amounts, sums, release times, per-block payouts and released flags compared with exact integer arithmetic for generated schedules/proceeds/block times. Exploration."),
+ "C10": T("K+A", "DESIGN.md 3.C10", "stateful PBT in a test binary that links the shipped binary's package graph: every MsgAddAllowedBidder (router and signed tx) must be rejected; ledger check of every stored bid",
+   "The switch is a link-time/process fact: the check runs where the init graph equals the binary's. Generated signers/auctions/amounts; exploration of one (default) build configuration.", NOTE_A),
+ "C11": T("K", "DESIGN.md 3.C11", "stateful PBT: per-modification necessary conditions, exact charge, append-only bid set",
+   "Chains of modifications by owners and non-owners at +-1 unit boundaries; accepted => all documented conditions, charge == difference of required reservations; no bid ever disappears or changes otherwise. Exploration."),
+ "C12": T("K", "DESIGN.md 3.C12", "stateful PBT: cancel accepted <=> (auctioneer and waiting), full escrow refund, permanence",
+   "Cancel attempts by every account in every status around the start time with donations present. Exploration."),
+ "C13": T("K", "DESIGN.md 3.C13", "stateful PBT: extension decision rule in exact rationals on recorded counts, end-time arithmetic, round bound",
+   "Rates engineered to hit 1-cur/last exactly and +-1e-18; each end-time evaluation must follow the rule; appended end time exact; counts cross-checked against reference matching bounds. Bounded progress (settlement is reached when blocks keep coming) instead of liveness."),
+ "C14": T("A", "DESIGN.md 3.C14", "differential testing: the same generated history executed 4x on fresh applications (and hook wiring 6x), transcripts compared",
+   "No model: ordered events, tx results, app hashes and final dumps of repeated executions must be identical; Go randomises map iteration per iteration so repetition inside one process exposes order dependence with high probability per settlement with >=3 transfers. Exploration.", NOTE_A),
+ "C15": T("K", "DESIGN.md 3.C15", "round-trip + lock-step differential: export -> validate -> import into an emptied store -> same suffix on both branches",
+   "Export points drawn anywhere in generated histories (all statuses, extended rounds); validation, collection-by-collection equality and identical behaviour under a generated suffix. Exploration."),
+ "C16": T("K", "DESIGN.md 3.C16", "stateful PBT: published flags/price vs observed transfers and reference clearing; query results vs model filter over all pages",
+   "Histories through extended rounds with outbidding; every settlement and a grid of Get*/List* requests (filters x pagination modes) are compared with the snapshot. Two listing defects are known findings (matched by exact signature). Exploration."),
+ "C17": T("hooks", "DESIGN.md 3.C17", "fault enumeration: (hook method x failing position x occurrence x listener count) over a generated scenario with instrumented listeners",
+   "Each of the 10 hook methods x every failing position for 1..4 listeners is covered many times per run; call count/order/values/timing checked without fault, veto semantics with fault. The grid is covered exhaustively in the quick tier (measured in classes); scenario parameters are sampled."),
+ "C18": T("K+A", "DESIGN.md 3.C18", "model-based PBT: predictive acceptance predicate on perturbed messages + differential transaction-boundary check",
+   "Valid-by-construction messages plus 1-2 perturbations at documented precondition boundaries; accept/reject must equal the conjunction of documented preconditions; rejected => full state/balance equality (router level and, differentially, at the signed-transaction boundary). Exploration.", NOTE_A),
+ "C19": T("K", "DESIGN.md 3.C19", "stateful PBT: frame snapshots + immutable terms + metamorphic projection onto one auction",
+   "2-5 concurrent auctions sharing participants: untouched auctions bit-identical around every operation; agreed terms constant; ids sequential; the history projected onto one auction must evolve identically modulo renaming. Exploration."),
+ "C20": T("CLI", "DESIGN.md 3.C20", "PBT over CLI argument vectors: typed args <-> generated tx round-trip, query request capture over loopback gRPC, real binary --help enumeration",
+   "Commands are enumerated from the built command tree; generated argument vectors over full field domains must round-trip through --generate-only; query commands (and aliases) must send the typed values and display the answer; the default-built binary must start and serve --help for every command. One configuration (default build). Display of responses with single Coin fields is a known finding (5 commands, exact signatures).",
+   NOTE_K + " cosmos.Dec arguments are typed as 18-digit mantissas (client/v2 v2.0.0-beta.4 behaviour, assumption stated in DESIGN.md)."),
 }
